@@ -155,6 +155,14 @@ def mutate(data, mut):
         b = bytearray(data)
         b[mut[1]] = mut[2]
         return bytes(b)
+    if k == "disco_fields":
+        f = mut[1]
+        usm = vber.tlv(vber.T_SEQ, vber.tlv(vber.T_OCTETS, bytes.fromhex(f["engine"])) + vber.tlv(vber.T_INT, bytes.fromhex(f["boots"]))
+                       + vber.tlv(vber.T_INT, bytes.fromhex(f["time"])) + vber.tlv(vber.T_OCTETS, b"") + vber.tlv(vber.T_OCTETS, b"")
+                       + vber.tlv(vber.T_OCTETS, b""))
+        body = vber.enc_scoped_pdu(bytes.fromhex(f["engine"]), b"", vber.enc_pdu(vber.PDU_REPORT, 0x6553F100, 0, 0, [
+            (vagent.OID_UNKNOWN_ENGINE, vber.T_COUNTER, bytes.fromhex(f["counter"]))]))
+        return vber.enc_v3_message(0x6553F100, 65507, 0, 3, usm, body)
     if k == "raw":
         return bytes.fromhex(mut[1])
     if k == "tree":
@@ -361,6 +369,13 @@ def deliver(base, mutant, use_guard=True):
 
 
 def run_case(case, use_guard=True) -> Result:
+    if case["mut"][0] == "history":
+        import vrunner as _vr
+
+        tmp = _vr.Stats()
+        history_unit(None, tmp, label="replay", n=case["mut"][1], size=case["mut"][2])
+        bad = [v for v in tmp.violations if v["case"]["base"] == case["base"]]
+        return Result(bad[0]["message"] if bad else None, True, ["path=history"])
     if use_guard:
         vsandbox.install_guard()
     vsandbox.limit_memory(3 << 30)
@@ -479,7 +494,14 @@ def tree(depth=0):
 @st.composite
 def generated(draw, tier):
     base = draw(st.sampled_from(BASES(tier)))
-    kind = draw(st.sampled_from(["raw", "tree", "tree", "msgtree"]))
+    kind = draw(st.sampled_from(["raw", "tree", "tree", "msgtree", "disco_fields"]))
+    if kind == "disco_fields":
+        # a discovery Report that is well-formed except that its integers have arbitrary width / sign / size
+        big = st.one_of(st.binary(min_size=1, max_size=4), st.binary(min_size=5, max_size=16),
+                        st.sampled_from([b"\x7f" + b"\xff" * 11, b"\xff" * 9, b"\x00" * 12 + b"\x01", b"\x7f\xff\xff\xff", b"\x00\x80\x00\x00\x00"]))
+        dbase = draw(st.sampled_from([b for b in BASES(tier) if b[0] == "disco"]))
+        return dict(base=list(dbase), mut=["disco_fields", dict(engine=draw(st.binary(min_size=0, max_size=40)).hex(),
+                                                               boots=draw(big).hex(), time=draw(big).hex(), counter=draw(big).hex())])
     if kind == "raw":
         return dict(base=list(base), mut=["raw", draw(st.binary(max_size=2048)).hex()])
     if kind == "tree":
@@ -524,8 +546,69 @@ def fuzz_corpus():
     return [bytes([i]) + base_bytes(b) for i, b in enumerate(FUZZ_BASES)]
 
 
+def history_unit(check, stats, *, label, known_ids=(), n=150, size=20000):
+    """a HISTORY of datagrams on one client: what stays allocated afterwards must not grow with the number of datagrams
+    (bounded by a small multiple of ONE datagram's size)"""
+    import gc
+    import tracemalloc
+
+    vsandbox.install_guard()
+    t0 = time.time()
+    kinds = ["error_response", "big_response", "malformed"]
+    for kind in kinds:
+        agent, client = vworld.make_world(PROTOS["v2c"], dict(DB), request_cap=None)
+        st8 = dict(n=0)
+
+        def hook(a, req, kind=kind, st8=st8):
+            pdu = req["pdu"]
+            st8["n"] += 1
+            pad = bytes([65 + st8["n"] % 26]) * size
+            if kind == "error_response":
+                vbs = [((1, 3, 6, 1, 2, 1, 1, 5, st8["n"]), vber.T_OCTETS, pad)]
+                return a.community_response(1, pdu["rid"], 5, 1, vbs)
+            if kind == "big_response":
+                return a.community_response(1, pdu["rid"], 0, 0, [(SC, vber.T_OCTETS, pad)])
+            good = a.community_response(1, pdu["rid"], 0, 0, [(SC, vber.T_OCTETS, pad)])
+            return good[:len(good) - 7 - st8["n"] % 50]
+
+        agent.respond_hook = hook
+
+        def one():
+            try:
+                vworld.run(client.get(vworld.OID(SC)))
+            except Exception:  # noqa
+                pass
+            del agent.log[:]        # the harness itself must not keep the datagrams alive
+
+        with vclock.fixed(1_700_000_000):
+            for _ in range(10):
+                one()
+            gc.collect()
+            tracemalloc.start()
+            base = tracemalloc.get_traced_memory()[0]
+            for _ in range(n):
+                one()
+            gc.collect()
+            retained = tracemalloc.get_traced_memory()[0] - base
+            tracemalloc.stop()
+        case = dict(base=["history", "v2c", kind], mut=["history", n, size])
+        budget = 16 * size + 256 * 1024
+        res_classes = ["path=history", "history=" + kind]
+        if retained > budget:
+            res = Result("after a history of %d %s datagrams of %d octets on one client %d KiB stay allocated (budget %d KiB = 16 x one "
+                         "datagram + 256 KiB): memory grows with the number of datagrams received" % (
+                             n, kind, size, retained // 1024, budget // 1024), True, res_classes)
+        else:
+            res = Result(None, True, res_classes, observations={"max_retained_after_history_kb": retained // 1024})
+        stats.record(case, res)
+        stats.evaluations += n - 1
+        if res.violation:
+            stats.violations.append(dict(case=case, message=res.violation, unit=label))
+    stats.units.append(dict(unit=label, kind="history", datagrams=3 * n, wall_s=round(time.time() - t0, 2)))
+
+
 def units(tier, seed):
-    us = []
+    us = [Unit("history", history_unit, label="history", n=150 if tier == "quick" else 600)]
     if tier == "thorough":
         import vfuzz
 
